@@ -430,6 +430,32 @@ def _behaviour(L, mobjs, live, names, translate, bad, out, case):
             if not any(f in s for f in _latex_forms(translate(m["latex"]))) or GENERATED.search(s):
                 bad("PrintsDisplayNames", f"latex_str of object {i + 1} ({m['kind']}) shows {s!r}, "
                                           f"expected the LaTeX name {translate(m['latex'])!r}")
+    # print_expression of the live objects AS A WHOLE: the bare object (not its term), lists / tuples of bare objects
+    # and an equation between two of them.  (Bare functions are left out: print_expression is typed for expressions.)
+    bare = [(j, m, o, translate(m["display"])) for j, (m, o) in enumerate(zip(mobjs, live))
+            if m["kind"] in ("symbol", "indexed", "quantity") and m["explicitD"]]
+    for j, m, o, disp in bare:
+        s = L.sy.print_expression(o)
+        if s != disp:
+            bad("PrintsDisplayNames", f"print_expression of the bare object {j + 1} ({m['kind']}) shows {s!r}, expected {disp!r}")
+    few = bare[:4]
+    if len(few) >= 2 and sum(len(d) for _j, _m, _o, d in few) < 50:       # short enough not to be wrapped
+        inner = ", ".join(d for _j, _m, _o, d in few)
+        cases = [("list", [o for _j, _m, o, _d in few], f"[{inner}]"), ("tuple", tuple(o for _j, _m, o, _d in few), f"({inner})")]
+        (_j1, _m1, o1, d1), (_j2, _m2, o2, d2) = few[0], few[1]
+        try:
+            cases.append(("equation", sp.Eq(o1, o2, evaluate=False), f"{d1} = {d2}"))
+        except Exception as e:  # pylint: disable=broad-except
+            out.append(("outside", "print", f"Eq of two bare objects raised {type(e).__name__}"))
+        for what, obj, want in cases:
+            try:
+                s = L.sy.print_expression(obj)
+            except Exception as e:  # pylint: disable=broad-except
+                out.append(("outside", "print", f"print_expression of a {what} of bare objects raised {type(e).__name__}"))
+                continue
+            if s != want or GENERATED.search(s):
+                bad("PrintsDisplayNames", f"print_expression of the {what} of objects {[j + 1 for j, *_ in few]} shows {s!r}, "
+                                          f"expected {want!r}")
     shown = [(i, m, t) for i, m, _o, t in terms if m["kind"] != "system" and m["explicitD"] and m["explicitL"]]
     if len(shown) >= 2:
         sub = sp.Add(*[PRIMES[i] * t for i, _m, t in shown])
